@@ -193,7 +193,12 @@ def regenerate(extra_items: dict[str, Any] | None = None, extra_lean: dict[str, 
 
 
 if __name__ == "__main__":
-    items, problems = extract()
-    print(render(items))
+    import sys
+    if "--write" in sys.argv:
+        items, problems, changed = regenerate()
+        print("Params.lean", "rewritten" if changed else "unchanged")
+    else:
+        items, problems = extract()
+        print(render(items))
     for p in problems:
         print("-- PROBLEM:", p)
